@@ -442,7 +442,7 @@ def queue_schedule(rng, i, frames):
             stream += [1, 0]
     pos = 0
     while pos < len(stream) and len(beh) < 80:
-        k = min(rng.choice([2, 3, 3, 5, 7, 64, 300, len(stream)]), len(stream) - pos)
+        k = min(rng.choice([1, 2, 3, 3, 5, 7, 64, 300, len(stream)]), len(stream) - pos)
         beh.append({"a": "qfeed", "arg": {"data": stream[pos:pos + k]}})
         pos += k
         for _ in range(rng.choice([1, 2, 3])):
